@@ -49,6 +49,16 @@ type session struct {
 	kfc  *fakeconsole.Console
 	imgs map[int]*vaxis.KittyImage
 	simgs map[int]*vaxis.Sixel
+	imgDims map[int][2]int
+}
+
+// resizedPx: the cell pixel size the real code uses (cellPixelSize) and the pixel size of the image the real
+// resizeImage returns for it: "px=<w>x<h> cell=<w>x<h>" (what CellSize() has to cover).
+func (s *session) resizedPx(d [2]int, w, h int) string {
+	gw, gh := s.kvx.VerifC20CellPixelSize()
+	pw, ph := -1, -1
+	hx.Guard(func() { pw, ph = vaxis.VerifResizeDims(d[0], d[1], w, h, gw, gh) })
+	return fmt.Sprintf("px=%dx%d cell=%dx%d", pw, ph, gw, gh)
 }
 
 func (s *session) reset() {
@@ -58,6 +68,7 @@ func (s *session) reset() {
 	}
 	s.imgs = map[int]*vaxis.KittyImage{}
 	s.simgs = map[int]*vaxis.Sixel{}
+	s.imgDims = map[int][2]int{}
 }
 
 func (s *session) closeAll() {
@@ -232,7 +243,7 @@ func (s *session) execOp(f []string) (string, bool) {
 	case "#case":
 		s.reset()
 		return "-", true
-	case "dims":
+	case "dims", "dimsi":
 		a, ok := ints(f[1:])
 		if !ok || len(a) != 6 {
 			return "", false
@@ -316,6 +327,7 @@ func (s *session) execOp(f []string) (string, bool) {
 			img.Pix[i] = uint8(37*i + 11*a[0] + 200)
 		}
 		s.imgs[a[0]] = s.kvx.NewKittyGraphic(img)
+		s.imgDims[a[0]] = [2]int{a[1], a[2]}
 		return "ok", true
 	case "kresize":
 		a, ok := ints(f[1:])
@@ -327,6 +339,7 @@ func (s *session) execOp(f []string) (string, bool) {
 			s.r.Count("kresize-panic: " + msg)
 			return "panic", true
 		}
+		px := s.resizedPx(s.imgDims[a[0]], a[1], a[2])
 		// the encoder goroutine clears the `encoding` flag when it is done (Draw is a no-op before)
 		deadline := time.Now().Add(10 * time.Second)
 		for {
@@ -335,9 +348,9 @@ func (s *session) execOp(f []string) (string, bool) {
 				cw, ch := im.CellSize()
 				if !pending {
 					s.r.Count("kresize-encoder-refused")
-					return fmt.Sprintf("%d %d noencode", cw, ch), true
+					return fmt.Sprintf("%d %d %s noencode", cw, ch, px), true
 				}
-				return fmt.Sprintf("%d %d", cw, ch), true
+				return fmt.Sprintf("%d %d %s", cw, ch, px), true
 			}
 			if time.Now().After(deadline) {
 				return "hang", true
@@ -357,6 +370,7 @@ func (s *session) execOp(f []string) (string, bool) {
 			}
 		}
 		s.simgs[a[0]] = s.kvx.NewSixel(img)
+		s.imgDims[a[0]] = [2]int{a[1], a[2]}
 		return "ok", true
 	case "sresize":
 		a, ok := ints(f[1:])
@@ -366,15 +380,16 @@ func (s *session) execOp(f []string) (string, bool) {
 		im := s.simgs[a[0]]
 		// NB: Sixel.Resize does all its work in a goroutine; a panic there cannot be recovered here
 		im.Resize(a[1], a[2])
+		px := s.resizedPx(s.imgDims[a[0]], a[1], a[2])
 		deadline := time.Now().Add(10 * time.Second)
 		for {
 			enc, n := im.VerifC20State()
 			if !enc {
 				cw, ch := im.CellSize()
 				if n == 0 {
-					return fmt.Sprintf("%d %d empty", cw, ch), true
+					return fmt.Sprintf("%d %d %s empty", cw, ch, px), true
 				}
-				return fmt.Sprintf("%d %d", cw, ch), true
+				return fmt.Sprintf("%d %d %s", cw, ch, px), true
 			}
 			if time.Now().After(deadline) {
 				return "hang", true
@@ -392,10 +407,13 @@ func (s *session) execOp(f []string) (string, bool) {
 		return s.snap(), true
 	case "kdraw":
 		a, ok := ints(f[1:])
-		if !ok || len(a) != 3 || s.imgs[a[0]] == nil {
+		if !ok || (len(a) != 3 && len(a) != 5) || s.imgs[a[0]] == nil {
 			return "", false
 		}
-		if p, _ := hx.Guard(func() { s.imgs[a[0]].Draw(s.kvx.Window().New(a[1], a[2], -1, -1)) }); p {
+		if len(a) == 3 {
+			a = append(a, -1, -1)
+		}
+		if p, _ := hx.Guard(func() { s.imgs[a[0]].Draw(s.kvx.Window().New(a[1], a[2], a[3], a[4])) }); p {
 			return "panic", true
 		}
 		return s.snap(), true
@@ -425,7 +443,7 @@ var geoms = [][2]int{{1, 2}, {8, 16}, {10, 20}}
 func ceilDiv(x, c int) int { return (x + c - 1) / c }
 
 func runC20(r *hx.Run) error {
-	s := &session{r: r, imgs: map[int]*vaxis.KittyImage{}, simgs: map[int]*vaxis.Sixel{}}
+	s := &session{r: r, imgs: map[int]*vaxis.KittyImage{}, simgs: map[int]*vaxis.Sixel{}, imgDims: map[int][2]int{}}
 	defer s.closeAll()
 	do := func(op string) string {
 		res, ok := s.execOp(strings.Fields(op))
@@ -545,7 +563,33 @@ func genDims(r *hx.Run, rng *gen.Rng, do func(string) string) {
 		}
 		do(fmt.Sprintf("dims %d %d %d %d %d %d", wPix, hPix, w, h, g[0], g[1]))
 	}
-	// zero cell geometry (F52)
+	// negative box dimensions (what the code does with them: the empty image)
+	nneg := 400
+	if r.Thorough {
+		nneg = 6000
+	}
+	for i := 0; i < nneg; i++ {
+		g := gen.Pick(rng, big)
+		wPix, hPix := rng.Range(1, 60), rng.Range(1, 60)
+		w, h := rng.Range(-6, 12), rng.Range(-6, 12)
+		switch rng.Intn(3) {
+		case 0:
+			w = -rng.Range(1, 40)
+		case 1:
+			h = -rng.Range(1, 40)
+		}
+		do(fmt.Sprintf("#case N:%d", i))
+		switch {
+		case w < 0 && h < 0:
+			r.Count("dims-box-both-negative")
+		case w < 0 || h < 0:
+			r.Count("dims-box-one-negative")
+		default:
+			r.Count("dims-box-nonnegative(signed op)")
+		}
+		do(fmt.Sprintf("dimsi %d %d %d %d %d %d", wPix, hPix, w, h, g[0], g[1]))
+	}
+	// zero cell geometry (F52): only reachable by calling resizeImage directly
 	for i, z := range [][2]int{{0, 16}, {8, 0}, {0, 0}, {0, 1}} {
 		do(fmt.Sprintf("#case Z:%d", i))
 		do(fmt.Sprintf("dims %d %d %d %d %d %d", 16, 16, 4, 4, z[0], z[1]))
@@ -768,7 +812,17 @@ func genPlacements(r *hx.Run, rng *gen.Rng, do func(string) string) {
 			resize(i)
 		}
 		place := func(i int) pl {
-			p := pl{i, rng.Range(0, W-1), rng.Range(0, H-1), -1, -1}
+			p := pl{i, rng.Range(0, W-6), rng.Range(0, H-4), -1, -1}
+			if !sixel[i] {
+				switch rng.Intn(24) {
+				case 0: // anywhere: the image may stick out of the rest of the screen (F120)
+					p.col, p.row = rng.Range(0, W-1), rng.Range(0, H-1)
+					r.Count("kitty-anywhere")
+				case 1, 2, 3: // a window of its own, sometimes smaller than the image (F120)
+					p.ww, p.wh = rng.Range(2, 9), rng.Range(1, 6)
+					r.Count("kitty-small-window")
+				}
+			}
 			if sixel[i] {
 				// sixel images are only drawn into windows they fit in: mostly large windows, some small
 				p.col, p.row = rng.Range(0, W-6), rng.Range(0, H-4)
@@ -821,7 +875,11 @@ func genPlacements(r *hx.Run, rng *gen.Rng, do func(string) string) {
 				if sixel[p.img] {
 					do(fmt.Sprintf("sdraw %d %d %d %d %d", p.img, p.col, p.row, p.ww, p.wh))
 				} else {
-					do(fmt.Sprintf("kdraw %d %d %d", p.img, p.col, p.row))
+					if p.ww == -1 && p.wh == -1 {
+						do(fmt.Sprintf("kdraw %d %d %d", p.img, p.col, p.row))
+					} else {
+						do(fmt.Sprintf("kdraw %d %d %d %d %d", p.img, p.col, p.row, p.ww, p.wh))
+					}
 				}
 			}
 			if rng.Chance(1, 6) {
@@ -837,12 +895,26 @@ func genPlacements(r *hx.Run, rng *gen.Rng, do func(string) string) {
 			prev = cur
 		}
 	}
-	// F52 end to end: a terminal reporting fewer pixels than columns => cell width 0
-	do("#case kitty:zero-cell-width")
-	do("knew 80 24 50 400")
-	do("kimg 1 16 16")
-	do("kresize 1 4 4")
-	r.Count("kitty-zero-cell-width")
+	// F52 end to end (repaired): terminals reporting fewer pixels than cells, or none at all
+	for i, t := range [][4]int{{80, 24, 50, 400}, {80, 24, 0, 0}, {80, 24, 640, 10}, {40, 20, 39, 19}, {40, 20, 41, 400}} {
+		do(fmt.Sprintf("#case kitty:degenerate-pixels:%d", i))
+		do(fmt.Sprintf("knew %d %d %d %d", t[0], t[1], t[2], t[3]))
+		do("kimg 1 16 16")
+		do("kresize 1 4 4")
+		do("kdraw 1 1 1")
+		do("krender")
+		do("simg 2 9 7")
+		do("sresize 2 3 3")
+		r.Count("kitty-degenerate-pixel-report")
+	}
+	// negative boxes through the exported Resize
+	do("#case kitty:negative-box")
+	do("knew 40 20 320 320")
+	do("kimg 1 24 24")
+	do("kresize 1 -2 3")
+	do("kresize 1 2 -3")
+	do("kresize 1 -1 -1")
+	r.Count("kitty-negative-box")
 	// an image squeezed to zero height: the PNG encoder refuses it and no Redraw is posted
 	do("#case kitty:vanishing")
 	do("knew 40 20 320 320")
